@@ -34,6 +34,7 @@ from hypothesis.stateful import RuleBasedStateMachine, initialize, rule, precond
 
 from vf import shim
 from vf.runner import Collector, exc_signature
+from pycdlib import pycdlibexception as pex
 
 ID = 'C16'
 LEVEL = 'exploration'
@@ -687,6 +688,31 @@ class Interp:
         size = self.files[s.fidx]['size']
         before = s.shadow.tell()
         lowest = HUGE_BASE if self.files[s.fidx].get('huge') else 0    # positions below `lowest` are not generated
+        target = off if whence == 0 else (before + off if whence == 1 else size + off)
+        if target < 0 and lowest == 0 and abs(off) % 3 == 0:
+            # a seek to before the start of the file: the library documents that it refuses it (where io.BytesIO clamps or raises
+            # ValueError); a refused seek must leave the stream where it was
+            self.classes.add('seek:negative-target')
+            desc = '%s.seek(%d, %d)' % (s.name, off, whence)
+            try:
+                got = s.real.seek(off, whence)
+            except pex.PyCdlibInvalidInput:
+                self.log(desc + ' -> refused   [from %d of %d]' % (before, size))
+                self._check_pos(s, 'refused-negative-seek', before)
+                self._check_others(but=s)
+                return
+            except Exception as e:
+                self.log(desc + ' -> raised %r' % (e,))
+                self._exc(e, desc + ' from position %d of %d' % (before, size), s)
+                return
+            self.log('%s -> %r   [negative target, from %d of %d]' % (desc, got, before, size))
+            s.shadow.seek(0)
+            if got != 0:
+                self.fail('C16/seek/negative-target-accepted-wrong-result', 'position', '%s from position %d of a %d-byte file returned %r (a binary stream clamps to 0)' % (desc, before, size, got))
+                self._resync(s)
+            else:
+                self._check_pos(s, 'clamped-negative-seek', before)
+            return
         if whence == 0:
             off = lowest + max(off, 0)
         elif whence == 1:
